@@ -30,6 +30,7 @@ def plan(tier, seed):
             dict(name="C01-lemma-range-index", kind="pyfunc", timeout=300,
                  payload=dict(func="vf.pyshim.lemmas:range_index", kwargs=dict(max_step=6))),
             ch("C01", "vf/pyshim/h_c17.py", "h_time_dtype", t if "C01" == "C17" else (90 if tier == "quick" else 300), ["api.ParquetFile._dtypes (timestamp branch)", "api.ParquetFile.__getstate__", "api.ParquetFile.__setstate__", "api.ParquetFile.pre_allocate"]),
+            ch("C01", "vf/pyshim/h_c17.py", "h_cat_order_flags", 90, ["api.ParquetFile.pre_allocate", "dataframe.empty (categorical placeholders)"]),
             ch("C01", "vf/pyshim/h_c06.py", "h_range_index", 60 if tier == "quick" else 300,
                ["api.ParquetFile.pre_allocate"])]
     wc = wc_lattice.jobs("C01", tier)
